@@ -67,10 +67,19 @@ impl Ctx {
         }
     }
     pub fn wants(&self, case: u64) -> bool {
-        match self.only_case {
+        let w = match self.only_case {
             None => true,
             Some(c) => c == case,
+        };
+        if w {
+            // marker of the case in flight: if the process dies (abort in a worker pool, signal)
+            // the engine attributes the death to this case
+            let _ = std::fs::write(self.out.join("inflight.txt"), format!("{}", case));
+            use std::io::Write;
+            let _ = self.ops.get_ref().sync_data();
+            let _ = std::io::stderr().flush();
         }
+        w
     }
     pub fn quick(&self) -> bool {
         self.tier == Tier::Quick
@@ -81,11 +90,15 @@ impl Ctx {
         writeln!(self.ops, "{}", op).unwrap();
         writeln!(self.imp, "{}", impl_out).unwrap();
         writeln!(self.ids, "{}", case).unwrap();
+        self.ops.flush().unwrap();
+        self.imp.flush().unwrap();
+        self.ids.flush().unwrap();
         self.lines += 1;
     }
     /// the property's own oracle failed on the implementation (no model involved)
     pub fn fail(&mut self, case: u64, sig: &str, what: &str) {
         writeln!(self.oracle, "{}\t{}\t{}", case, sig, what.replace('\n', " ")).unwrap();
+        self.oracle.flush().unwrap();
         self.oracle_failures += 1;
     }
     pub fn count(&mut self, key: &str) {
@@ -137,6 +150,7 @@ impl Ctx {
         }
         s.push_str("\n ]\n}\n");
         std::fs::write(self.out.join("stats.json"), s).unwrap();
+        let _ = std::fs::remove_file(self.out.join("inflight.txt"));
     }
 }
 
